@@ -7,11 +7,14 @@ EXPLANATION = ("static analysis: the four inter-event distributions are interpre
                "(symbolic nodes, times t+k so that gaps are concrete; ties, equal gaps, an event log with an emptied "
                "bucket) and on pair timelines: global / per-node (either, source, target) / per-pair answers must be the "
                "histogram of gaps between consecutive selected events; coverage, node_contribution, uniformity, "
-               "node_pair_uniformity, density, pair_density and node_presence are interpreted on a symbolic graph (path + "
-               "isolated node, two snapshot ids with a silent gap between them) in which presence of each pair at each id "
-               "is an uninterpreted predicate (all 16 valuations) and compared with the definitions of the property "
-               "statement as exact fractions; edge_contribution's closed-interval length is typed (end - start + 1); the "
-               "observers are shown pure.  node_density, snapshot_density and avg_number_of_nodes (C04) are not covered here")
+               "node_pair_uniformity, density, pair_density, node_density, snapshot_density and node_presence are interpreted on a "
+               "symbolic graph (path + isolated node, seven snapshot ids with holes) in which presence of each pair at each id "
+               "is an uninterpreted predicate and compared with the definitions of the property statement as exact fractions "
+               "(node_density, for which the statement gives no formula, with the one the pinned suite fixes: v = u is counted in "
+               "the denominator; snapshot_density = |E_t| / C(|V_t|, 2) with networkx.density modelled on the slice); an instant "
+               "tested for truth is also placed at the literal 0; edge_contribution's closed-interval length is typed "
+               "(end - start + 1); the observers are shown pure; no state shared between calls or graphs (P7).  "
+               "avg_number_of_nodes is decided under C04")
 
 STATS = {"coverage", "node_contribution", "edge_contribution", "uniformity", "node_pair_uniformity", "density", "pair_density",
          "node_density", "node_presence", "snapshot_density", "inter_event_time_distribution", "inter_in_event_time_distribution",
